@@ -8,7 +8,7 @@ from .. import core, gitskin, stream, tlc
 from ..core import log
 
 PID = "C01"
-ALPHABET = ["-", "+", "@", "\\", " ", "\t", "a", "é", "世"]
+ALPHABET = ["-", "+", "@", "\\", " ", "\t", "a", "é", "世", "\u0301", "\u200d"]   # (the last two: a combining mark, a joiner - they cling to the marker)
 
 
 def payload_histories(maxlen):
